@@ -14,6 +14,7 @@ type reaperSys struct {
 	step   int
 	c      string        // the model client: c1 (datagram listener) or s1 (stream listener)
 	park   bool          // the next OnAllocationCreated callback is held
+	parkAt string        // ... or the next call-out of this name
 	parked chan struct{} // closed by CallbackDone
 	down   bool
 }
@@ -35,7 +36,7 @@ func newReaperSys(meta Meta, seed int64) (Sys, error) {
 	w.gen.gate = true
 	s := &reaperSys{w: w, c: c}
 	w.gate = func(point string) {
-		if point == "callout.alloccreated" && s.park {
+		if point == s.parkAt && s.park {
 			s.park = false
 			<-s.parked // the operator's callback takes its time (the harness decides how long)
 		}
@@ -45,12 +46,16 @@ func newReaperSys(meta Meta, seed int64) (Sys, error) {
 }
 
 func (s *reaperSys) Close() {
+	s.w.gen.mu.Lock()
+	s.w.gen.gate = false // relay sockets created from now on report their close at once
+	s.w.gen.mu.Unlock()
 	if s.parked != nil {
 		select {
 		case <-s.parked:
 		default:
 			close(s.parked)
 		}
+		time.Sleep(time.Millisecond) // (inside the bubble: the released handler runs to its end first)
 	}
 	s.w.gen.mu.Lock()
 	for _, c := range s.w.gen.Order {
@@ -75,8 +80,11 @@ func (s *reaperSys) Do(a map[string]any, wait func()) ([]Obs, error) {
 		obs, err = s.w.Do(map[string]any{"a": "Refresh", "c": s.c, "u": "u1", "lr": -1, "rf": 0}, wait)
 	case "RefreshZero":
 		obs, err = s.w.Do(map[string]any{"a": "Refresh", "c": s.c, "u": "u1", "lr": 0, "rf": 0}, wait)
-	case "AllocateSlow":
-		s.park, s.parked = true, make(chan struct{})
+	case "AllocateSlow", "AllocateSlowAuth":
+		s.park, s.parked, s.parkAt = true, make(chan struct{}), "callout.alloccreated"
+		if a["a"] == "AllocateSlowAuth" {
+			s.parkAt = "callout.auth"
+		}
 		obs, err = s.w.Do(map[string]any{"a": "Allocate", "c": s.c, "u": "u1", "lr": -1, "tx": fmt.Sprintf("t%d", s.step), "rf": 0, "tk": "none"}, wait)
 	case "CallbackDone":
 		close(s.parked)
